@@ -1,9 +1,11 @@
 /-
   BB.Lemmas.Order — every pass maps the item list item by item, in order.
 
-  `Img it repl` is what one source item may turn into: items carrying the same source line, markers
-  (labels, constants) only into markers, data items into data of the same total size, an instruction
-  into one instruction or into 2 / 4 bytes of data.  `Expands items out` says `out` is the
+  `Img it repl` is what one source item may turn into: items carrying the same source line; a marker
+  (label, constant) stays or disappears; a data item stays ONE data item of the same size (a blob stays
+  the same blob); an instruction stays ONE item, an instruction or its 2 / 4 bytes; a pseudo-instruction
+  stays or becomes one or two machine instructions (2 / 4 / 6 / 8 bytes - never dropped, never more);
+  an `align a` stays or becomes nothing or one blob of `0 < n < a` zero bytes.  `Expands items out` says `out` is the
   concatenation, in order, of one such image per item.  It is reflexive-ish (`Expands.refl`),
   transitive, and every pass of `assembleItems` satisfies it.
 -/
@@ -29,44 +31,101 @@ def Item.isInstr : Item → Bool
   | .instr .. => true
   | _ => false
 
+/-- items whose image is pinned down exactly (`SpecImg`) -/
+def Item.isSpecial : Item → Bool
+  | .label .. => true
+  | .constant .. => true
+  | .blob .. => true
+  | .pseudo .. => true
+  | .align .. => true
+  | _ => false
+
+/-- one machine instruction, still an instruction item or already its 2 / 4 bytes -/
+def Item.isCode (x : Item) : Prop :=
+  Item.isInstr x = true ∨ (Item.isData x = true ∧ (x.sizeD = 2 ∨ x.sizeD = 4))
+
+/-- image of a pseudo-instruction once it is expanded: one or two machine instructions -/
+def PseudoImg (r : List Item) : Prop :=
+  (∃ x, r = [x] ∧ Item.isCode x) ∨ (∃ x y, r = [x, y] ∧ Item.isCode x ∧ Item.isCode y)
+
+/-- what a marker, a blob, a pseudo-instruction, an alignment may turn into when it does not stay as
+    it is: a label / constant disappears (its value has gone to the tables), a blob never changes, a
+    pseudo-instruction becomes one or two machine instructions (never nothing, never more), an
+    `align a` becomes nothing or ONE blob of `0 < n < a` zero bytes -/
+def SpecImg : Item → List Item → Prop
+  | .label .., repl => repl = []
+  | .constant .., repl => repl = []
+  | .pseudo .., repl => PseudoImg repl
+  | .align line a, repl =>
+      repl = [] ∨ ∃ n : Nat, 0 < n ∧ (n : Int) < a ∧ repl = [.blob line (List.replicate n 0)]
+  | _, _ => False
+
 structure Img (it : Item) (repl : List Item) : Prop where
   line : ∀ x ∈ repl, x.line = it.line
   marker : Item.isMarker it = true → ∀ x ∈ repl, Item.isMarker x = true
-  data : Item.isData it = true → (∀ x ∈ repl, Item.isData x = true) ∧ sizeSum repl = it.sizeD
-  instr : Item.isInstr it = true →
-    (∃ x, repl = [x] ∧ Item.isInstr x = true) ∨
-    ((∀ x ∈ repl, Item.isData x = true) ∧ (sizeSum repl = 2 ∨ sizeSum repl = 4))
+  /-- a data item stays ONE data item of the same size -/
+  data : Item.isData it = true → ∃ x, repl = [x] ∧ Item.isData x = true ∧ x.sizeD = it.sizeD
+  /-- an instruction stays ONE item: an instruction, or its 2 / 4 bytes -/
+  instr : Item.isInstr it = true → ∃ x, repl = [x] ∧ Item.isCode x
+  /-- markers, blobs, pseudo-instructions and alignments: unchanged, or exactly as `SpecImg` says -/
+  special : Item.isSpecial it = true → repl = [it] ∨ SpecImg it repl
 
 inductive Expands : List Item → List Item → Prop
   | nil : Expands [] []
   | cons {it : Item} {rest repl out : List Item} : Img it repl → Expands rest out →
       Expands (it :: rest) (repl ++ out)
 
+theorem Item.isCode_size {x : Item} (h : Item.isCode x) : x.sizeD = 2 ∨ x.sizeD = 4 := by
+  rcases h with h | ⟨_, h⟩
+  · cases x with
+    | instr line ins =>
+      simp only [Item.sizeD, Item.size?, Option.getD_some, Instr.size]
+      split <;> simp
+    | _ => simp [Item.isInstr] at h
+  · exact h
+
+/-- an expanded pseudo-instruction totals 2, 4, 6 or 8 bytes -/
+theorem PseudoImg.size {r : List Item} (h : PseudoImg r) :
+    sizeSum r = 2 ∨ sizeSum r = 4 ∨ sizeSum r = 6 ∨ sizeSum r = 8 := by
+  rcases h with ⟨x, rfl, hx⟩ | ⟨x, y, rfl, hx, hy⟩
+  · have := Item.isCode_size hx
+    simp only [sizeSum, List.map_cons, List.map_nil, List.sum_cons, List.sum_nil]; omega
+  · have h1 := Item.isCode_size hx
+    have h2 := Item.isCode_size hy
+    simp only [sizeSum, List.map_cons, List.map_nil, List.sum_cons, List.sum_nil]; omega
+
 theorem Img.same {it it' : Item} (hl : it'.line = it.line)
+    (hs : Item.isSpecial it = false)
     (hm : Item.isMarker it = true → Item.isMarker it' = true)
     (hd : Item.isData it = true → Item.isData it' = true ∧ it'.sizeD = it.sizeD)
     (hi : Item.isInstr it = true → Item.isInstr it' = true) : Img it [it'] := by
-  refine ⟨?_, ?_, ?_, ?_⟩
+  refine ⟨?_, ?_, ?_, ?_, ?_⟩
   · intro x hx; simp only [List.mem_singleton] at hx; subst hx; exact hl
   · intro h x hx; simp only [List.mem_singleton] at hx; subst hx; exact hm h
-  · intro h
-    refine ⟨?_, ?_⟩
-    · intro x hx; simp only [List.mem_singleton] at hx; subst hx; exact (hd h).1
-    · simp [sizeSum, (hd h).2]
-  · intro h; exact Or.inl ⟨it', rfl, hi h⟩
+  · intro h; exact ⟨it', rfl, (hd h).1, (hd h).2⟩
+  · intro h; exact ⟨it', rfl, Or.inl (hi h)⟩
+  · intro h; rw [hs] at h; cases h
 
-theorem Img.refl (it : Item) : Img it [it] :=
-  Img.same rfl (fun h => h) (fun h => ⟨h, rfl⟩) (fun h => h)
+theorem Img.refl (it : Item) : Img it [it] := by
+  refine ⟨?_, ?_, ?_, ?_, ?_⟩
+  · intro x hx; simp only [List.mem_singleton] at hx; subst hx; rfl
+  · intro h x hx; simp only [List.mem_singleton] at hx; subst hx; exact h
+  · intro h; exact ⟨it, rfl, h, rfl⟩
+  · intro h; exact ⟨it, rfl, Or.inl h⟩
+  · intro _; exact Or.inl rfl
 
-/-- an item that is neither marker, data nor instruction (pseudo, align): only the line is tracked -/
-theorem Img.other {it : Item} {repl : List Item} (hl : ∀ x ∈ repl, x.line = it.line)
-    (hm : Item.isMarker it = false) (hd : Item.isData it = false) (hi : Item.isInstr it = false) :
-    Img it repl :=
-  ⟨hl, fun h => by simp [hm] at h, fun h => by simp [hd] at h, fun h => by simp [hi] at h⟩
+/-- a label / constant is consumed -/
+theorem Img.drop {it : Item} (hm : Item.isMarker it = true) : Img it [] := by
+  refine ⟨fun x hx => by simp at hx, fun _ x hx => by simp at hx, ?_, ?_, ?_⟩
+  · intro h; cases it <;> simp [Item.isMarker, Item.isData] at hm h
+  · intro h; cases it <;> simp [Item.isMarker, Item.isInstr] at hm h
+  · intro _; cases it <;> first | (simp [Item.isMarker] at hm; done) | exact Or.inr rfl
 
-theorem Img.drop {it : Item} (hd : Item.isData it = false) (hi : Item.isInstr it = false) : Img it [] :=
-  ⟨fun x hx => by simp at hx, fun _ x hx => by simp at hx, fun h => by simp [hd] at h,
-   fun h => by simp [hi] at h⟩
+/-- a special item with a given `SpecImg` -/
+theorem Img.spec {it : Item} {repl : List Item} (hl : ∀ x ∈ repl, x.line = it.line)
+    (hm : Item.isMarker it = false) (hd : Item.isData it = false) (hi : Item.isInstr it = false)
+    (h : SpecImg it repl) : Img it repl :=
+  ⟨hl, fun h => by simp [hm] at h, fun h => by simp [hd] at h, fun h => by simp [hi] at h, fun _ => Or.inr h⟩
 
 theorem Expands.refl : ∀ l : List Item, Expands l l
   | [] => .nil
@@ -124,35 +183,71 @@ theorem Expands.all_data {a out : List Item} (h : Expands a out)
   induction h with
   | nil => exact ⟨fun x hx => by simp at hx, rfl⟩
   | cons hi _ ih =>
-    obtain ⟨d1, d2⟩ := hi.data (ha _ List.mem_cons_self)
+    obtain ⟨x, rfl, d1, d2⟩ := hi.data (ha _ List.mem_cons_self)
     obtain ⟨i1, i2⟩ := ih (fun y hy => ha y (List.mem_cons_of_mem _ hy))
     refine ⟨?_, ?_⟩
-    · intro x hx
-      rcases List.mem_append.mp hx with hx | hx
-      · exact d1 x hx
-      · exact i1 x hx
-    · rw [sizeSum_append, sizeSum_cons, d2, i2]
+    · intro z hz
+      rcases List.mem_append.mp hz with hz | hz
+      · simp only [List.mem_singleton] at hz; subst hz; exact d1
+      · exact i1 z hz
+    · rw [sizeSum_append, sizeSum_cons, i2]
+      simp [sizeSum, d2]
+
+/-- the image of a one-item list is an image of that item -/
+theorem Expands.single_inv {x : Item} {out : List Item} (h : Expands [x] out) : Img x out := by
+  cases h with
+  | cons hix hr =>
+    have := Expands.nil_inv hr
+    subst this
+    simpa using hix
+
+theorem Img.code {x : Item} {out : List Item} (h : Img x out) (hx : Item.isCode x) : ∃ y, out = [y] ∧ Item.isCode y := by
+  rcases hx with hx | ⟨hx, hs⟩
+  · exact h.instr hx
+  · obtain ⟨y, rfl, hy, he⟩ := h.data hx
+    exact ⟨y, rfl, Or.inr ⟨hy, by rw [he]; exact hs⟩⟩
+
+theorem PseudoImg.expands {r out : List Item} (h : PseudoImg r) (he : Expands r out) : PseudoImg out := by
+  rcases h with ⟨x, rfl, hx⟩ | ⟨x, y, rfl, hx, hy⟩
+  · exact Or.inl (he.single_inv.code hx)
+  · obtain ⟨o1, o2, rfl, e1, e2⟩ := Expands.append_inv (a := [x]) (c := [y]) he
+    obtain ⟨x', rfl, hx'⟩ := e1.single_inv.code hx
+    obtain ⟨y', rfl, hy'⟩ := e2.single_inv.code hy
+    exact Or.inr ⟨x', y', rfl, hx', hy'⟩
 
 theorem Img.trans {it : Item} {repl out : List Item} (h1 : Img it repl) (h2 : Expands repl out) :
     Img it out := by
-  refine ⟨?_, ?_, ?_, ?_⟩
+  refine ⟨?_, ?_, ?_, ?_, ?_⟩
   · intro x hx
     obtain ⟨y, hy, e⟩ := h2.line_mem x hx
     rw [e]; exact h1.line y hy
   · intro hm; exact h2.all_marker (h1.marker hm)
   · intro hd
-    obtain ⟨d1, d2⟩ := h1.data hd
-    obtain ⟨e1, e2⟩ := h2.all_data d1
-    exact ⟨e1, by rw [e2, d2]⟩
+    obtain ⟨x, rfl, d1, d2⟩ := h1.data hd
+    obtain ⟨y, rfl, e1, e2⟩ := h2.single_inv.data d1
+    exact ⟨y, rfl, e1, by rw [e2, d2]⟩
   · intro hi
-    rcases h1.instr hi with ⟨x, rfl, hx⟩ | ⟨d1, d2⟩
-    · cases h2 with
-      | cons hix hr =>
-        have := Expands.nil_inv hr
-        subst this
-        simpa using hix.instr hx
-    · obtain ⟨e1, e2⟩ := h2.all_data d1
-      exact Or.inr ⟨e1, by rw [e2]; exact d2⟩
+    obtain ⟨x, rfl, hx⟩ := h1.instr hi
+    exact h2.single_inv.code hx
+  · intro hs
+    rcases h1.special hs with rfl | hsp
+    · exact h2.single_inv.special hs
+    · refine Or.inr ?_
+      cases it with
+      | label line n =>
+        simp only [SpecImg] at hsp ⊢; subst hsp; exact Expands.nil_inv h2
+      | constant line n e =>
+        simp only [SpecImg] at hsp ⊢; subst hsp; exact Expands.nil_inv h2
+      | pseudo line n args =>
+        simp only [SpecImg] at hsp ⊢; exact hsp.expands h2
+      | align line a =>
+        simp only [SpecImg] at hsp ⊢
+        rcases hsp with rfl | ⟨n, h0, hn, rfl⟩
+        · exact Or.inl (Expands.nil_inv h2)
+        · rcases h2.single_inv.special rfl with e | e
+          · exact Or.inr ⟨n, h0, hn, e⟩
+          · simp [SpecImg] at e
+      | _ => simp [SpecImg] at hsp
 
 theorem Expands.trans {a b : List Item} (h1 : Expands a b) : ∀ {c : List Item}, Expands b c → Expands a c := by
   induction h1 with
